@@ -532,9 +532,9 @@ def violation(eng, res, cfg, gene, c0, c1, fsv, hyps, ev, label, key, obj=None):
         defs = []
         for r_, e_ in (ev or {}).items():
             defs += [e_["inv"] * e_["scale"] == 1, e_["q"] == e_["d"] * e_["inv"]]
-        st, mm = eng.satisfiable(h_ + defs, timeout_ms=20000)
+        st, mm = eng.satisfiable(h_ + defs, timeout_ms=60000)
         if st != "sat":
-            st, mm = eng.satisfiable(h_, timeout_ms=20000)
+            st, mm = eng.satisfiable(h_, timeout_ms=60000)
         if st != "sat":
             continue
         vals0 = {r: symx.model_value(mm, c0[r]) for r in c0}
@@ -559,7 +559,7 @@ def violation(eng, res, cfg, gene, c0, c1, fsv, hyps, ev, label, key, obj=None):
                             for r in c0]))
     # last resort for structural differences: noise-free depth vectors of every pair of
     # configurations (the solver already fixed the fusion-support values)
-    st, mm = eng.satisfiable(list(hyps), timeout_ms=20000)
+    st, mm = eng.satisfiable(list(hyps), timeout_ms=60000)
     if st == "sat":
         fsval = {a: float(symx.model_value(mm, v)) for a, v in fsv.items()}
         pairs = list(itertools.combinations_with_replacement(sorted(gene.cn_configs), 2))
